@@ -113,15 +113,17 @@ Definition prepares_bounded_by_generations (h : list event) : Prop :=
    EXECUTE / BATCH frame was returned by the server, earlier in the history, for a PREPARE whose cache
    key is the key of that very statement, keyspace and host, and the frame carries exactly as many
    values as that answer's metadata has bind columns *)
-Definition id_was_returned_for (h : list event) (k : key) (id : list Z) (nvals : Z) : Prop :=
-  exists f t meta h1 h2 h3,
+Definition id_was_returned_for (h : list event) (k : key) (id : list Z) (meta nvals : Z) : Prop :=
+  exists f t h1 h2 h3,
     key_for t = k /\ h = h1 ++ EvPrepare f t :: h2 ++ EvPrepared f id nvals meta :: h3.
 
+(* ... and the bind/result metadata the executor uses with that id is the metadata of that same answer
+   ("with bind/result metadata of that statement") *)
 Definition sends_use_returned_ids (h : list event) : Prop :=
-  forall h1 h2 e b host ks items st id n,
+  forall h1 h2 e b host ks items st id meta n,
     h = h1 ++ EvSend e b host ks items :: h2 ->
-    In (st, Some id, n) items ->
-    id_was_returned_for h1 (key_for (mkTriple host ks st)) id n.
+    In (st, Some (id, meta), n) items ->
+    id_was_returned_for h1 (key_for (mkTriple host ks st)) id meta n.
 
 (* "a failed PREPARE is reported to everyone waiting on it": see Props.v (a statement about states). *)
 
